@@ -566,13 +566,23 @@ def explore(tier, seed, rng, wd):
             if rep in INT_INFO and INT_INFO[rep][0] <= 16:
                 lines.append(f"S {ins['id']} {ilo(rep)} {ihi(rep)} {cert}")
                 meta.append(("S", ins, None))
-            elif tier == "thorough" and ci == 0 and rep in sweep32 and sweep32[rep] < 2 and (ins["u"] * 7 + seed) % 5 == 0:
+            elif tier == "thorough" and ci == 0 and rep in sweep32 and sweep32[rep] < 1 and (ins["u"] * 7 + seed) % 5 == 0:
+                # one instance per 32-bit rep: every int32 value, every float bit pattern; for uint32 the three
+                # regions around 0, 2^31 and 2^32 (the signed/unsigned confusion boundaries), 2^29 values each
                 sweep32[rep] += 1
-                lo, hi = (ilo(rep), ihi(rep)) if rep != "f32" else (0, (1 << 32) - 1)
-                step = (hi - lo + 1) // 16
-                for k in range(16):
-                    lines.append(f"S {ins['id']} {lo + k * step} {lo + (k + 1) * step - 1 if k < 15 else hi} {cert}")
-                    meta.append(("S", ins, None))
+                if rep == "i32":
+                    ranges = [(ilo(rep), ihi(rep))]
+                elif rep == "f32":
+                    ranges = [(0, (1 << 32) - 1)]
+                else:
+                    ranges = [(0, (1 << 29) - 1), ((1 << 31) - (1 << 28), (1 << 31) + (1 << 28) - 1),
+                              ((1 << 32) - (1 << 29), (1 << 32) - 1)]
+                pieces = 16 // len(ranges)
+                for lo, hi in ranges:
+                    step = (hi - lo + 1) // pieces
+                    for k in range(pieces):
+                        lines.append(f"S {ins['id']} {lo + k * step} {lo + (k + 1) * step - 1 if k < pieces - 1 else hi} {cert}")
+                        meta.append(("S", ins, None))
             pts = int_points(rng, rep, npts) if rep in INT_INFO else float_points(rng, rep, npts)
             if rep in INT_INFO and INT_INFO[rep][0] <= 16:
                 pts = rng.sample(pts, min(len(pts), 6))
